@@ -17,6 +17,34 @@ import (
 type DocCase struct {
 	Doc  []byte `json:"doc"`
 	Note string `json:"note,omitempty"`
+	// Prev: inputs (mostly truncated or otherwise invalid) handed to the
+	// package-level Parse function BEFORE the document under test: whatever the
+	// package keeps between calls (pools, tables) must not matter
+	Prev [][]byte `json:"prev,omitempty"`
+}
+
+// drawPrev draws 0..2 earlier inputs: prefixes of the document and of another
+// encoding of it, hostile headers.
+func drawPrev(t *rapid.T, doc []byte, hostile []string) [][]byte {
+	if rapid.IntRange(0, 3).Draw(t, "prev") != 0 || len(doc) == 0 {
+		return nil
+	}
+	var out [][]byte
+	for i, n := 0, rapid.IntRange(1, 2).Draw(t, "nprev"); i < n; i++ {
+		if len(hostile) > 0 && rapid.IntRange(0, 3).Draw(t, "prevh") == 0 {
+			out = append(out, []byte(rapid.SampledFrom(hostile).Draw(t, "prevhv")))
+			continue
+		}
+		out = append(out, append([]byte{}, doc[:rapid.IntRange(0, len(doc)-1).Draw(t, "prevcut")]...))
+	}
+	return out
+}
+
+func parsePrev(cd *codec, prev [][]byte) {
+	for _, p := range prev {
+		p := p
+		guard(func() error { return cd.Parse(p, &model.Counter{Limit: 4*len(p) + 64}) })
+	}
 }
 
 func parseToTree(cd *codec, doc []byte) (model.V, []model.Ev, Outcome, error) {
@@ -47,6 +75,10 @@ func checkC05(ci any, info *CaseInfo) string {
 	}
 	if cinfo.Depth >= 2 {
 		info.Class("depth>=2")
+	}
+	if len(c.Prev) > 0 {
+		info.Class("earlier_inputs")
+		parsePrev(codecs["cborl"], c.Prev)
 	}
 	got, _, o, terr := parseToTree(codecs["cborl"], c.Doc)
 	if o.Panicked() {
@@ -166,6 +198,10 @@ func checkC06(ci any, info *CaseInfo) string {
 			info.Class(name)
 		}
 	}
+	if len(c.Prev) > 0 {
+		info.Class("earlier_inputs")
+		parsePrev(codecs["ubjson"], c.Prev)
+	}
 	got, _, o, terr := parseToTree(codecs["ubjson"], c.Doc)
 	if o.Panicked() {
 		return fmt.Sprintf("ubjson parser panicked on %q: %v\n%s", trunc(c.Doc), o.Panic, o.Stack)
@@ -196,7 +232,7 @@ func newUBJEnc(t *rapid.T) *ref.UBJEnc {
 func init() {
 	register(&Property{
 		ID:   "C05",
-		Rule: "rapid draws a value tree (ints over [-2^64,2^64-1], float32/64 bit patterns, arbitrary byte strings/keys, nested arrays/maps) and renders it with the harness' constructive CBOR encoder under drawn choices (argument width minimal or wider, definite/indefinite containers, byte string vs array, null/undefined); 1 in 5 cases splices exactly one unsupported item (negative below -2^63, tag, half float, indefinite string, simple value, non-text key) at a drawn position; deterministic part: 21 boundary values x every argument width that holds them x {unsigned, negative}, string/array/map lengths in every width, every unsupported item, each in 6 nesting contexts (top, definite/indefinite array and map, indefinite inside definite); oracle = independent RFC 7049 decoder; non-trivial = non-minimal width, indefinite container, negative with top argument bit, depth>=2 or unsupported item; distinct by document hash",
+		Rule: "rapid draws a value tree (ints over [-2^64,2^64-1], float32/64 bit patterns, arbitrary byte strings/keys, nested arrays/maps) and renders it with the harness' constructive CBOR encoder under drawn choices (argument width minimal or wider, definite/indefinite containers, byte string vs array, null/undefined); 1 in 5 cases splices exactly one unsupported item (negative below -2^63, tag, half float, indefinite string, simple value, non-text key) at a drawn position; deterministic part: 21 boundary values x every argument width that holds them x {unsigned, negative}, string/array/map lengths in every width, every unsupported item, each in 6 nesting contexts (top, definite/indefinite array and map, indefinite inside definite); 1 in 4 documents is parsed after 1..2 earlier calls of the package-level Parse on truncated prefixes / hostile headers; oracle = independent RFC 7049 decoder; non-trivial = non-minimal width, indefinite container, negative with top argument bit, depth>=2 or unsupported item; distinct by document hash",
 		New:  func() any { return &DocCase{} },
 		Draw: func(t *rapid.T) any {
 			if rapid.IntRange(0, 4).Draw(t, "unsup") == 4 {
@@ -206,20 +242,20 @@ func init() {
 			v := gen.Value(t, gen.ValueCfg{IntRange: "cbor", Floats32: true, Deep: true, NoEmptyKey: gen.Excluded("empty_key")})
 			e := &ref.CBOREnc{C: gen.RapidChooser{T: t}}
 			e.Encode(v)
-			return &DocCase{Doc: e.Out}
+			return &DocCase{Doc: e.Out, Prev: drawPrev(t, e.Out, c03Hostile["cborl"])}
 		},
 		Check: checkC05,
 		Enum:  enumC05,
 	})
 	register(&Property{
 		ID:   "C06",
-		Rule: "rapid draws a value tree (int64, float32/64 bits, strings incl. decimal spellings, homogeneous and mixed containers) and renders it with the harness' constructive UBJSON encoder under drawn choices (every integer marker that holds the value, C, H, any length marker i/U/I/l/L, plain/counted/typed containers incl. typed containers of containers, no-ops at top level and in plain arrays); oracle = independent draft-12 decoder; non-trivial = counted/typed container, non-minimal length marker, no-op or depth>=2; distinct by document hash",
+		Rule: "rapid draws a value tree (int64, float32/64 bits, strings incl. decimal spellings, homogeneous and mixed containers) and renders it with the harness' constructive UBJSON encoder under drawn choices (every integer marker that holds the value, C, H, any length marker i/U/I/l/L, plain/counted/typed containers incl. typed containers of containers, no-ops at top level and in plain arrays); 1 in 4 documents is parsed after 1..2 earlier calls of the package-level Parse on truncated prefixes / hostile headers; oracle = independent draft-12 decoder; non-trivial = counted/typed container, non-minimal length marker, no-op or depth>=2; distinct by document hash",
 		New:  func() any { return &DocCase{} },
 		Draw: func(t *rapid.T) any {
 			v := gen.Value(t, gen.ValueCfg{IntRange: "int64", Floats32: true, Decimals: true, Deep: true})
 			e := newUBJEnc(t)
 			e.Encode(v)
-			return &DocCase{Doc: e.Out}
+			return &DocCase{Doc: e.Out, Prev: drawPrev(t, e.Out, c03Hostile["ubjson"])}
 		},
 		Check: checkC06,
 	})
